@@ -224,7 +224,10 @@ def parse_rvalue(s):
                 pass
         return Rvalue('use', parse_operand(t), text=s)
     if t.startswith('&raw const ') or t.startswith('&raw mut '):
-        return Rvalue('ref', parse_place(t.split(' ', 2)[2]), text=s)
+        rest = t.split(' ', 2)[2]
+        if rest.startswith('(fake) '):
+            rest = rest[7:]
+        return Rvalue('ref', parse_place(rest), text=s)
     if t.startswith('&mut '):
         return Rvalue('ref', parse_place(t[5:]), True, text=s)
     if t.startswith('&fake shallow '):
@@ -481,10 +484,23 @@ def _parse_function(body):
     header = body[0]
     is_const = not header.startswith('fn ')
     if is_const:
-        m = re.match(r'^(?:const|static(?: mut)?) (.*?): (.*) = \{$', header)
+        m = re.match(r'^(?:const|static(?: mut)?) (.*) = \{$', header)
         if not m:
             return None
-        name, params, ret = m.group(1), [], m.group(2)
+        body0 = m.group(1)
+        # split "name: type" at the first ': ' outside <...> (impl-at spans contain ': ')
+        depth, k = 0, -1
+        for i, ch in enumerate(body0):
+            if ch == '<':
+                depth += 1
+            elif ch == '>' and body0[i - 1] != '-':
+                depth -= 1
+            elif ch == ':' and depth == 0 and body0[i:i + 2] == ': ':
+                k = i
+                break
+        if k < 0:
+            return None
+        name, params, ret = body0[:k], [], body0[k + 2:]
     else:
         h = header[3:]
         # name up to the parameter list: the '(' that follows the name (names may contain <impl at ...> and {closure#0})
